@@ -44,6 +44,9 @@ type Result struct {
 	Violations         []Violation    `json:"violations"`
 	Notes              []string       `json:"notes"`
 	Exhaustive         *bool          `json:"exhaustive,omitempty"`
+	// Extra keys are copied verbatim into the evidence coverage object (e.g. "programs",
+	// "disagreements_checked" for translation validation, "states"/"transitions").
+	Extra map[string]any `json:"extra,omitempty"`
 	distinct           map[string]struct{}
 	violSeen           map[string]struct{}
 }
@@ -106,6 +109,16 @@ func (r *Result) Violate(v Violation) {
 	}
 	r.violSeen[v.Sig] = struct{}{}
 	r.Violations = append(r.Violations, v)
+}
+
+// SetExtra records an extra coverage key for the evidence file.
+func (r *Result) SetExtra(key string, v any) {
+	r.mu.Lock()
+	if r.Extra == nil {
+		r.Extra = map[string]any{}
+	}
+	r.Extra[key] = v
+	r.mu.Unlock()
 }
 
 func (r *Result) Note(format string, a ...any) {
